@@ -216,7 +216,7 @@ def replay(data):
 
 def main(tier, seed):
     t0 = time.time()
-    depth = 3 if tier == "quick" else 4
+    depth = 5 if tier == "quick" else 9
     L = letters(tier)
     hr = hbfs(L, execute, max_depth=depth, jobs=JOBS, chunk=16)
     res_ = dict(cfg=dict(depth=depth))
